@@ -24,6 +24,9 @@ open ZipVerif
 /-- The I/O vocabulary of the metadata parsers. -/
 class ParserIO (m : Type → Type) extends Monad m where
   ioReadExact : Nat → m Bytes
+  /-- a consumer draining `Take(limit)` over the reader (the entry DATA of the streaming reader, which
+  has to be consumed before the next header can be parsed) -/
+  ioTakeAll : Nat → m Bytes
   ioSeek : SeekFrom → m Nat
   ioThrow : {α : Type} → ZErr → m α
   ioPanic : {α : Type} → String → m α
@@ -31,6 +34,7 @@ class ParserIO (m : Type → Type) extends Monad m where
 
 instance : ParserIO M where
   ioReadExact := M.readExact
+  ioTakeAll := takeAll
   ioSeek := M.seek
   ioThrow := M.throw
   ioPanic := M.panic
@@ -66,6 +70,21 @@ def readExact (n : Nat) : MS Bytes := fun sch d =>
   | (.err e, d') => (.err (.io e), d')
   | (.panic, d') => (.panic "read_exact", d')
 
+/-- A consumer draining `Take(limit)` over the short-reading device with a buffer as large as what is
+left of the limit, until the limit is reached or a read returns 0 bytes. -/
+def takeAllAux (sch : Nat → Nat) : Nat → Dev → Nat → Bytes × Dev
+  | 0, d, _ => ([], d)
+  | _ + 1, d, 0 => ([], d)
+  | fuel + 1, d, n + 1 =>
+    match (shortSrc sch).rd d (n + 1) with
+    | (.ok bs, d') =>
+      if bs = [] then ([], d')
+      else ((bs ++ (takeAllAux sch fuel d' (n + 1 - bs.length)).1), (takeAllAux sch fuel d' (n + 1 - bs.length)).2)
+    | (_, d') => ([], d')
+
+def takeAll (limit : Nat) : MS Bytes := fun sch d =>
+  (.ok (takeAllAux sch limit d limit).1, (takeAllAux sch limit d limit).2)
+
 /-- `Seek::seek` - the same as on the `Cursor` (counted as a call). -/
 def seek (s : SeekFrom) : MS Nat := fun _ d =>
   let d1 : Dev := { d with calls := d.calls + 1 }
@@ -86,6 +105,7 @@ end MS
 
 instance : ParserIO MS where
   ioReadExact := MS.readExact
+  ioTakeAll := MS.takeAll
   ioSeek := MS.seek
   ioThrow := fun e _ d => (.err e, d)
   ioPanic := fun s _ d => (.panic s, d)
@@ -307,6 +327,97 @@ def findContent (f : FileData) : m Nat := do
     if ds ≥ 18446744073709551616 then ioPanic "rs2lean: checked operation" else do
       let _ ← ioSeek (.start ds)
       pure ds
+
+/-! #### The streaming reader (`read_zipfile_from_stream`, `ZipStreamReader`): no seek is ever issued -/
+
+/-- `read_zipfile_from_stream` up to the construction of the entry. -/
+def streamHeader : m (Option FileData) := do
+  let sig ← readU32
+  if sig == CENTRAL_SIG then pure none
+  else if sig != LOCAL_SIG then ioThrow .invalidArchive
+  else do
+    let versionMadeBy ← readU16
+    let flags ← readU16
+    let encrypted := flags &&& 1 == 1
+    let isUtf8 := flags &&& (0x0800 : UInt16) != 0
+    let usingDataDescriptor := flags &&& (0x0008 : UInt16) != 0
+    let cm ← readU16
+    let lastModTime ← readU16
+    let lastModDate ← readU16
+    let crc32 ← readU32
+    let compressedSize ← readU32
+    let uncompressedSize ← readU32
+    let fileNameLength ← readU16
+    let extraFieldLength ← readU16
+    let fileNameRaw ← ioReadExact fileNameLength.toNat
+    let extraField ← ioReadExact extraFieldLength.toNat
+    let result : FileData := {
+      system := System.fromU8 (versionMadeBy >>> 8).toUInt8
+      versionMadeBy := versionMadeBy.toUInt8
+      encrypted, usingDataDescriptor
+      method := Method.fromU16 cm
+      level := none
+      time := DateTime.fromMsdos lastModDate lastModTime
+      crc32
+      compressedSize := compressedSize.toUInt64
+      uncompressedSize := uncompressedSize.toUInt64
+      fileName := Text.decodeToUtf8 isUtf8 fileNameRaw
+      fileNameRaw, extraField
+      fileComment := []
+      headerStart := 0, centralHeaderStart := 0, dataStart := 0
+      externalAttributes := 0
+      largeFile := false
+      aesMode := none }
+    let (result, perr) := parseExtraField (extraField.length + 1) result extraField
+    match perr with
+    | some (.io _) | none =>
+      if encrypted then ioThrow .unsupportedArchive
+      else if usingDataDescriptor then ioThrow .unsupportedArchive
+      else match result.method with
+        | .unsupported _ => ioThrow .unsupportedArchive
+        | .aes => ioThrow .unsupportedArchive
+        | _ => pure (some result)
+    | some e => ioThrow e
+
+/-- One streamed entry: header, then the entry's data consumed to the end of its `Take`. -/
+def streamEntry (ext : Ext) : m (Option (FileData × Out Bytes)) := do
+  let h ← streamHeader
+  match h with
+  | none => pure none
+  | some f => do
+    let raw ← ioTakeAll f.compressedSize.toNat
+    let res : Out Bytes := do
+      let dec ← ext.decode f.method raw
+      crcCheck false f.crc32 dec
+    pure (some (f, res))
+
+def streamEntries (ext : Ext) : (fuel : Nat) → m (List (FileData × Out Bytes))
+  | 0 => pure []
+  | fuel + 1 => do
+    let e ← streamEntry ext
+    match e with
+    | none => pure []
+    | some x => do
+      let rest ← streamEntries ext fuel
+      pure (x :: rest)
+
+/-- `ZipStreamReader::parse_central_directory` loop after the first record. -/
+def streamCentralLoop : (fuel : Nat) → m (List FileData)
+  | 0 => pure []
+  | fuel + 1 => do
+    let sig ← readU32
+    if sig != CENTRAL_SIG then pure [] else do
+      let f ← centralHeaderInner 0 0
+      let rest ← streamCentralLoop fuel
+      pure (f :: rest)
+
+/-- `ZipStreamReader::visit` with the two loop bounds as parameters (the model takes them from the
+length of the input: `streamVisit_M`). -/
+def streamVisitF (ext : Ext) (fuel₁ fuel₂ : Nat) : m (List (FileData × Out Bytes) × List FileData) := do
+  let files ← streamEntries ext fuel₁
+  let first ← centralHeaderInner 0 0
+  let rest ← streamCentralLoop fuel₂
+  pure (files, first :: rest)
 
 end G
 end ZipVerif.Model
